@@ -445,6 +445,51 @@ func famLegacy(r *Rand) *seqScenario {
 	return b.sc
 }
 
+// famFirstAndTwin: the boundary cases of deduplication — the log's very first entry (leaf index 0) resubmitted, and a
+// precertificate whose TBS bytes equal an earlier one's under another issuer key (NOT a duplicate: it must get a leaf
+// of its own).
+func famFirstAndTwin(r *Rand) *seqScenario {
+	b := newScb("dup", 0, r)
+	b.boot(0)
+	first := b.entry(seqEntrySpec{Kind: "rand", Precert: true})
+	b.cmd(seqCmd{Op: "submit", Inst: 0, Entry: first})
+	b.cmd(seqCmd{Op: "run", Inst: 0})
+	twinEarly := r.Bool()
+	var twin int
+	if twinEarly {
+		// in the same pool as its twin
+		twin = b.entry(seqEntrySpec{Kind: "rand", TwinOf: first + 1})
+		b.cmd(seqCmd{Op: "submit", Inst: 0, Entry: twin})
+		b.cmd(seqCmd{Op: "run", Inst: 0})
+	}
+	b.submitN(0, r.Intn(3), false)
+	b.roundOK(0)
+	resub := func() {
+		b.cmd(seqCmd{Op: "submit", Inst: 0, Entry: first})
+		b.cmd(seqCmd{Op: "run", Inst: 0, Max: 0})
+	}
+	resub()
+	if !twinEarly {
+		// after its twin was sequenced and cached
+		twin = b.entry(seqEntrySpec{Kind: "rand", TwinOf: first + 1})
+		b.cmd(seqCmd{Op: "submit", Inst: 0, Entry: twin})
+		b.cmd(seqCmd{Op: "run", Inst: 0})
+	}
+	if r.Chance(50) {
+		b.cmd(seqCmd{Op: "crash", Inst: 0})
+		b.cmd(seqCmd{Op: "start", Inst: 0})
+		b.cmd(seqCmd{Op: "run", Inst: 0})
+		resub()
+	}
+	b.submitN(0, 1, false)
+	b.roundOK(0)
+	resub()
+	b.cmd(seqCmd{Op: "submit", Inst: 0, Entry: twin})
+	b.cmd(seqCmd{Op: "run", Inst: 0, Max: 0})
+	b.roundOK(0)
+	return b.sc
+}
+
 // famPool: admission control with small pools and priorities.
 func famPool(r *Rand) *seqScenario {
 	pool := 1 + r.Intn(4)
@@ -821,6 +866,9 @@ func genScenarios(o *Opts, r *Rand) []*seqScenario {
 	if fam("dup") {
 		for i := 0; i < 40*mul; i++ {
 			add(famDup(r.Fork()))
+		}
+		for i := 0; i < 8*mul; i++ {
+			add(famFirstAndTwin(r.Fork()))
 		}
 	}
 	if fam("bigpool") {
